@@ -34,7 +34,9 @@ def leaf_values(k):
                 (1, 2, -4), (-3, 2, -7), (2 ** 70 + 3, 2, -2),
                 # decimal form beyond the double range / the double mantissa; the smallest doubles
                 (1, 10, 400), (1, 10, -400), (12345678901234567890123, 10, 0), (15, 10, -1), (1, 2, -1074),
-                (9999999999999962, 10, -326)]
+                (9999999999999962, 10, -326),
+                # a mantissa beyond the float range, the value well inside it
+                (10 ** 400 + 1, 10, -200), (2 ** 2000 + 1, 2, -1995)]
     if k in ('UTF8String',):
         return ['', 'a', 'héllo', '日本', 'x' * 130]
     if k in ('BMPString',):
